@@ -236,18 +236,19 @@ end
 
 /-! ### the pass-2 checks -/
 
-theorem checkLiveUsed_ok {P : Prog} {s : Scope} {x : Leaf} (h : checkLiveUsed P s x = .ok ())
-    (hl : P.lin x = true) : s.used x = some false := by
+theorem checkLiveUsed_ok {P : Prog} {c : Blk} {s : Scope} {x : Leaf} (h : checkLiveUsed P c s x = .ok ())
+    (hl : x ∈ P.rowLin c) : s.used x = some false := by
   unfold checkLiveUsed at h
-  simp only [hl, if_true] at h
+  have hl' : (P.rowLin c).contains x = true := by simpa using hl
+  simp only [hl', if_true] at h
   cases hu : s.used x with
   | none => simp [hu] at h
   | some u => cases u with
     | true => simp [hu] at h
     | false => rfl
 
-theorem checkLeak_ok {P : Prog} {live : Blk → List Leaf} {b : Blk} {s : Scope} {x : Leaf}
-    (h : checkLeak P live b s x = .ok ()) (hl : P.lin x = true) (hlive : x ∈ live b ∨ x ∈ s.vars)
+theorem checkLeak_ok {P : Prog} {live : Blk → List Leaf} {b : Blk} {s : Scope} {x : Leaf} {lin : Bool}
+    (h : checkLeak P live b s lin x = .ok ()) (hl : lin = true) (hlive : x ∈ live b ∨ x ∈ s.vars)
     (hu : s.used x = some false) : ∀ c ∈ P.succ b, x ∈ live c := by
   unfold checkLeak at h
   have h1 : (!(live b).contains x && !s.vars.contains x) = false := by
@@ -262,31 +263,40 @@ theorem checkLeak_ok {P : Prog} {live : Blk → List Leaf} {b : Blk} {s : Scope}
 
 theorem checkEdges_ok {P : Prog} {live : Blk → List Leaf} {b : Blk} {s : Scope}
     (h : checkEdges P live b s = .ok ()) :
-    (∀ c ∈ P.succ b, ∀ x ∈ live c, P.lin x = true → s.used x = some false) ∧
-    (∀ x, x ∈ s.vars ∨ x ∈ s.parent → P.lin x = true → x ∈ live b ∨ x ∈ s.vars → s.used x = some false →
-      ∀ c ∈ P.succ b, x ∈ live c) := by
+    (∀ c ∈ P.succ b, ∀ x ∈ live c, x ∈ P.rowLin c → s.used x = some false) ∧
+    (∀ x ∈ s.vars, x ∈ s.linVars → s.used x = some false → ∀ c ∈ P.succ b, x ∈ live c) ∧
+    (∀ x ∈ s.parent, x ∉ s.vars → x ∈ s.linParent → x ∈ live b → s.used x = some false →
+      ∀ c ∈ P.succ b, x ∈ live c) ∧
+    (b ≠ P.entry → b ≠ P.exit → ∀ x ∈ live b, x ∈ s.parent) := by
   unfold checkEdges at h
-  rw [bind_ok_unit, bind_ok_unit] at h
-  obtain ⟨h1, h2, _⟩ := h
-  rw [forM_ok] at h1 h2
-  constructor
+  rw [bind_ok_unit, bind_ok_unit, bind_ok_unit, bind_ok_unit] at h
+  obtain ⟨h1, h2, h3, h4, _⟩ := h
+  rw [forM_ok] at h1 h2 h3
+  refine ⟨?_, ?_, ?_, ?_⟩
   · intro c hc x hx hl
     have := h1 c hc
     rw [forM_ok] at this
     exact checkLiveUsed_ok (this x hx) hl
-  · intro x hx hl hlive hu
-    refine checkLeak_ok (h2 x ?_) hl hlive hu
-    by_cases hv : x ∈ s.vars
-    · exact List.mem_append_left _ hv
-    · rcases hx with hx | hx
-      · exact absurd hx hv
-      · exact List.mem_append_right _ (List.mem_filter.mpr ⟨hx, by simpa using hv⟩)
+  · intro x hx hl hu
+    exact checkLeak_ok (h2 x hx) (by simpa using hl) (Or.inr hx) hu
+  · intro x hx hv hl hlive hu
+    exact checkLeak_ok (h3 x (List.mem_filter.mpr ⟨hx, by simpa using hv⟩)) (by simpa using hl) (Or.inl hlive) hu
+  · intro he hx x hxl
+    unfold checkInRow at h4
+    have : ¬ (b = P.entry ∨ b = P.exit) := fun h' => h'.elim he hx
+    simp only [this, if_false] at h4
+    rw [forM_ok] at h4
+    have := h4 x hxl
+    split at this
+    · rename_i hc; simpa using hc
+    · cases this
 
 /-! ### the implicit use of the borrowed leaves at the exit -/
 
 theorem exitUse_spec : ∀ (ls : List Leaf) (s s' : Scope), s.vars = [] → ls.foldlM Scope.use s = .ok s' →
     s'.vars = [] ∧ s'.usedLocal = s.usedLocal ∧ s'.parent = s.parent ∧
-      (∀ y, y ∈ s'.usedParent ↔ y ∈ s.usedParent ∨ y ∈ ls) ∧ ∀ y ∈ ls, y ∈ s.parent := by
+      (∀ y, y ∈ s'.usedParent ↔ y ∈ s.usedParent ∨ y ∈ ls) ∧ (∀ y ∈ ls, y ∈ s.parent) ∧
+      s'.linParent = s.linParent ∧ s'.linVars = s.linVars := by
   intro ls
   induction ls with
   | nil =>
@@ -301,8 +311,8 @@ theorem exitUse_spec : ∀ (ls : List Leaf) (s s' : Scope), s.vars = [] → ls.f
     simp only [hv, List.contains_nil, Bool.false_eq_true, if_false] at h
     by_cases hp : s.parent.contains x = true
     · simp only [hp, if_true, bind, Except.bind] at h
-      obtain ⟨a1, a2, a3, a4, a5⟩ := ih _ s' (by simpa using hv) h
-      refine ⟨a1, a2, a3, ?_, ?_⟩
+      obtain ⟨a1, a2, a3, a4, a5, a6, a7⟩ := ih _ s' (by simpa using hv) h
+      refine ⟨a1, a2, a3, ?_, ?_, a6, a7⟩
       · intro y
         rw [a4]
         simp only [mem_ins, List.mem_cons]
@@ -316,15 +326,14 @@ theorem exitUse_spec : ∀ (ls : List Leaf) (s s' : Scope), s.vars = [] → ls.f
     · have hp' : x ∉ s.parent := by simpa using hp
       simp [hp', bind, Except.bind] at h
 
-/-- summary of pass 1 (+ exit amendment) for one linear leaf of one block: the bookkeeping ran
+/-- summary of pass 1 (+ exit amendment) for one leaf of one block: the bookkeeping ran
     successfully over exactly the leaf's events of the block -/
-theorem block_proj {P : Prog} (hw : P.WF) {l : Leaf} (hl : P.lin l = true) {b : Blk} {s : Scope}
-    (h : IsScope P b s) :
-    s.parent = (initScope P b).parent ∧
+theorem block_proj {P : Prog} (hw : P.WF) {l : Leaf} {b : Blk} {s : Scope} (h : IsScope P b s) :
+    (s.parent = (initScope P b).parent ∧ s.linParent = (initScope P b).linParent) ∧
       crun ((initScope P b).parent.contains l) ((initScope P b).proj l) (P.blockEvs l b) = some (s.proj l) ∧
       ∀ st ∈ P.stmts b, st.StaticOK P := by
   obtain ⟨s0, h0, h1⟩ := h
-  obtain ⟨p1, p2, p3⟩ := checkBlock_proj hl h0
+  obtain ⟨p1, p2, p3⟩ := checkBlock_proj (l := l) h0
   by_cases hb : b = P.exit
   · subst hb
     simp only [if_true] at h1
@@ -335,23 +344,24 @@ theorem block_proj {P : Prog} (hw : P.WF) {l : Leaf} (hl : P.lin l = true) {b : 
       simpa [pure, Except.pure] using h0.symm
     have hv0 : s0.vars = [] := by rw [hs0]; simp [initScope, hne]
     unfold exitUse at h1
-    obtain ⟨a1, a2, a3, a4, a5⟩ := exitUse_spec _ _ _ hv0 h1
-    refine ⟨a3.trans p1, ?_, p3⟩
+    obtain ⟨a1, a2, a3, a4, a5, a6, a7⟩ := exitUse_spec _ _ _ hv0 h1
+    refine ⟨⟨a3.trans p1.1, a6.trans p1.2⟩, ?_, p3⟩
     unfold Prog.blockEvs
     rw [hw.exitStmts]
     simp only [List.flatMap_nil, List.nil_append, true_and]
+    have hlv : l ∉ s.linVars := by rw [a7, hs0]; simp [initScope, hne]
     by_cases hbl : l ∈ P.borrowedLeaves
     · have hpar : l ∈ (initScope P P.exit).parent := by rw [← hs0]; exact a5 l hbl
       have hup : l ∈ s.usedParent := (a4 l).mpr (Or.inr hbl)
       have hul : l ∉ s.usedLocal := by rw [a2, hs0]; simp [initScope, hne]
       simp only [hbl, if_true]
       simp [initScope, hne] at hpar
-      simp [crun, cstep, Scope.proj, initScope, hne, a1, hup, hul, hpar]
+      simp [crun, cstep, Scope.proj, initScope, hne, a1, hup, hul, hpar, hlv]
     · have hup : l ∉ s.usedParent := by
         rw [a4]; rw [hs0]; simp [initScope, hne, hbl]
       have hul : l ∉ s.usedLocal := by rw [a2, hs0]; simp [initScope, hne]
       simp only [hbl, if_false]
-      simp [crun, Scope.proj, initScope, hne, a1, hup, hul]
+      simp [crun, Scope.proj, initScope, hne, a1, hup, hul, hlv]
   · simp only [hb, if_false] at h1
     subst h1
     refine ⟨p1, ?_, p3⟩
